@@ -408,6 +408,17 @@ class Printer:
     def has_bare_struct(self, e):
         return isinstance(e, StructLit)
 
+    def head(self, e, ind):
+        """condition / scrutinee / iterable position (no struct literals allowed there). The parser
+        re-enables struct literals after a nested if/match, so `.. x {` would then be misread as a
+        struct literal; such heads are parenthesized (the span excludes the parentheses)."""
+        if contains_ctrl(e):
+            self.w("(")
+            sp = self.expr(e, ind, 0)
+            self.w(")")
+            return sp
+        return self.expr(e, ind, 0, no_struct=True)
+
     def prec(self, e):
         if isinstance(e, Bin):
             return self.PREC[e.op]
@@ -459,7 +470,7 @@ class Printer:
             return (s, self.pos())
         if isinstance(e, If):
             self.w("if ")
-            self.expr(e.c, ind, 0, no_struct=True)
+            self.head(e.c, ind)
             self.w(" ")
             self.block(e.t, ind)
             if e.f is not None:
@@ -468,7 +479,7 @@ class Printer:
             return (s, self.pos())
         if isinstance(e, Match):
             self.w("match ")
-            self.expr(e.scrut, ind, 0, no_struct=True)
+            self.head(e.scrut, ind)
             self.w(" {")
             for pat, body in e.arms:
                 self.nl(ind + 4)
@@ -565,14 +576,28 @@ class Printer:
             return (s, en)
         raise TypeError(type(e))
 
+    def stmts(self, stmts, ind):
+        """statement list. An if/match/block statement has no terminating `;` and the parser would
+        continue it with a following `-..` / `[..]`; an expression statement right after one is
+        therefore parenthesized."""
+        prev_brace = False
+        for st in stmts:
+            self.nl(ind)
+            self.stmt(st, ind, guard=prev_brace)
+            prev_brace = isinstance(st, ExprStmt) and isinstance(st.e, (If, Match, Block))
+        return prev_brace
+
     def block(self, b, ind):
         self.w("{")
-        for st in b.stmts:
-            self.nl(ind + 4)
-            self.stmt(st, ind + 4)
+        prev_brace = self.stmts(b.stmts, ind + 4)
         if b.e is not None:
             self.nl(ind + 4)
-            self.expr(b.e, ind + 4, 0)
+            if prev_brace and not isinstance(b.e, (If, Match, Block)):
+                self.w("(")
+                self.expr(b.e, ind + 4, 0)
+                self.w(")")
+            else:
+                self.expr(b.e, ind + 4, 0)
         self.nl(ind)
         self.w("}")
 
@@ -617,7 +642,7 @@ class Printer:
         else:
             raise TypeError(type(p))
 
-    def stmt(self, st, ind):
+    def stmt(self, st, ind, guard=False):
         s = self.pos()
         if isinstance(st, Let):
             self.w("let ")
@@ -646,7 +671,11 @@ class Printer:
                 elif a[0] == "tup":
                     self.w(".%d" % a[1])
                 else:
-                    self.w("." + a[1])
+                    self.w(".")
+                    # the front end's span of a field access is the field identifier only, and
+                    # the statement span starts where the target expression's span starts
+                    s = self.pos()
+                    self.w(a[1])
             self.w(" %s= " % (st.op or ""))
             _, en = self.expr(st.e, ind, 0)
             self.w(";")
@@ -655,11 +684,9 @@ class Printer:
             self.w("for ")
             self.pattern(st.pat)
             self.w(" in ")
-            self.expr(st.arr, ind, 0, no_struct=True)
+            self.head(st.arr, ind)
             self.w(" {")
-            for b in st.body:
-                self.nl(ind + 4)
-                self.stmt(b, ind + 4)
+            self.stmts(st.body, ind + 4)
             self.nl(ind)
             self.w("}")
             st.span = (s, self.pos())
@@ -671,15 +698,19 @@ class Printer:
             self.w(", ")
             self.expr(st.b, ind, 0)
             self.w(") {")
-            for b in st.body:
-                self.nl(ind + 4)
-                self.stmt(b, ind + 4)
+            self.stmts(st.body, ind + 4)
             self.nl(ind)
             self.w("}")
             st.span = (s, self.pos())
         elif isinstance(st, ExprStmt):
-            sp = self.expr(st.e, ind, 0)
-            if not isinstance(st.e, (If, Match, Block)):
+            if isinstance(st.e, (If, Match, Block)):
+                sp = self.expr(st.e, ind, 0)
+            elif guard:
+                self.w("(")
+                sp = self.expr(st.e, ind, 0)
+                self.w(");")
+            else:
+                sp = self.expr(st.e, ind, 0)
                 self.w(";")
             st.span = sp
         else:
@@ -706,6 +737,16 @@ class Printer:
             self.block(f.body, 0)
         self.nl(0)
         return self.text()
+
+
+def contains_ctrl(node):
+    if isinstance(node, (If, Match, Block)):
+        return True
+    if isinstance(node, (list, tuple)):
+        return any(contains_ctrl(x) for x in node)
+    if isinstance(node, Node):
+        return any(contains_ctrl(v) for v in vars(node).values() if isinstance(v, (Node, list, tuple)))
+    return False
 
 
 def render(prog):
